@@ -153,6 +153,15 @@ func vfShape(shape int) (map[string]*vfShapeRes, []vfReqKind, []vfShapeEvent) {
 		}}
 		customX := vfShapeEvent{rid: "test.x", name: "custom", apply: func(svc map[string]*vfShapeRes) string { return `{"x":1}` }}
 		events = []vfShapeEvent{two, customX, customX}
+	case 7:
+		// a chain a -> b -> c with c also subscribed directly, and a slow
+		// parent l -> {b, s}: a and c are left while l still loads
+		svc["test.a"] = vfShapeModel("k", vfRefVal("test.b"))
+		svc["test.b"] = vfShapeModel("k", vfRefVal("test.c"))
+		svc["test.c"] = vfShapeModel("v", `"c"`)
+		svc["test.l"] = vfShapeModel("k", vfRefVal("test.b"), "s", vfRefVal("test.s"))
+		svc["test.s"] = vfShapeModel("v", `"s"`)
+		kinds = []vfReqKind{vfSub("test.a"), vfSub("test.c"), vfSub("test.l"), vfUnsub("test.a"), vfUnsub("test.c")}
 	case 1:
 		// a collection gaining a reference to a resource the client also
 		// subscribes directly, the collection being left meanwhile
